@@ -4,7 +4,7 @@ from props.base import PropBase
 import pktgen, scen, compare as CMP
 from pktgen import udp_frame
 
-KINDS = {'lcreate', 'linit', 'lstart', 'lstop', 'lopen', 'lstate', 'lproc', 'leof', 'ldestroy', 'late', 'crash', 'nodrv'}
+KINDS = {'lcreate', 'linit', 'lstart', 'lstop', 'lopen', 'lstate', 'lproc', 'leof', 'ldestroy', 'late', 'crash', 'nodrv', 'hang'}
 
 
 class Prop(PropBase):
@@ -97,6 +97,19 @@ class Prop(PropBase):
         self.feats[name] = feats
         return '\n'.join(lines)
 
+    def bgfeed(self, rng, name):
+        """stop() / restart while a thread of the caller keeps feeding: stop() must return although the queue never runs dry
+        (a watchdog turns a call that does not return into a `hang` line), no callback may run between stop() and the next start()"""
+        l = self.L[rng.choice(['RS16', 'RSHELIOS', 'RSM1'])]
+        cfg = pktgen.Cfg(wait=0, dense=0, pktcb=1, lclock=1, mode=3, nblk=3)
+        pk = scen.MechStream(rng, l).msop() if l.mech else scen.mems_msop(rng, l, 7)
+        lines = [f'S {name}', cfg.line(0, l), 'WD 25', 'LC 0 1', 'LI 0', 'LS 0', f'LB 0 {rng.choice([200, 500, 1000])} {pk.hex()}', f'SL {rng.choice([20, 40])}']
+        for k in range(rng.choice([1, 2])):
+            lines += ['LX 0', f'SL {rng.choice([5, 20])}', 'LS 0', f'SL {rng.choice([10, 30])}']
+        lines += ['LX 0', 'LY 0', 'LD 0', 'E']
+        self.feats[name] = {'stop-while-feeding', 'restart'}
+        return '\n'.join(lines)
+
     def generate(self, rng, tier):
         base = 12000 + (os.getpid() % 16) * 100      # a port block of this property only, below the ephemeral range
         self.feats = {}
@@ -105,9 +118,11 @@ class Prop(PropBase):
         for k in range(n):
             for kind in ('raw', 'raw', 'pcap', 'pcaprep', 'sock'):
                 hs.append(self.history(rng, kind, f'c11_{kind}_{len(hs)}', base + 4 * len(hs)))
+        hs += [self.bgfeed(rng, f'c11_bg_{k}') for k in range(3 if tier == 'quick' else 20)]
         out = [('life', '\n'.join(hs) + '\n')]
         ts = [self.history(rng, kind, f'c11_t_{kind}_{k}', base + 2000 + 4 * (5 * k + j)) for k in range(2 if tier == 'quick' else 12)
               for j, kind in enumerate(('raw', 'pcap', 'pcaprep', 'sock'))]
+        ts += [self.bgfeed(rng, f'c11_t_bg_{k}') for k in range(2 if tier == 'quick' else 8)]
         out.append(('tsan_life', '\n'.join(ts) + '\n'))
         if tier != 'quick':
             # every call sequence of length 4 over the six calls on a RAW_PACKET driver (1296 histories), and of length 3 over
@@ -173,10 +188,15 @@ class Prop(PropBase):
         return name if self.feats.get(name) else None
 
     def crash_key(self, name, lines, log):
+        if any(l.startswith('hang') for l in lines):
+            return 'hang'
         return 'tsan' if any('exit 68' in l for l in lines if l.startswith('crash')) else 'crash'
 
     def oracle(self, name, impl_lines, model_lines, scn_lines):
         res = []
+        hung = [l for l in impl_lines if l.startswith('hang')]
+        if hung:
+            res.append(('hang', f'a lifecycle call did not return within the watchdog time although only the feeding went on: `{hung[0][5:]}` (stop() must return once the worker threads have seen the exit request)'))
         if any(l.startswith('late') for l in impl_lines):
             res.append(('late-callback', 'a callback ran after stop() / the destructor had returned: ' + [l for l in impl_lines if l.startswith('late')][0]))
         # numbering continues across restarts (until the object is destroyed or replaced)
